@@ -20,7 +20,7 @@ EXPLANATION = (
     "caller's; the timeout error of wait comes only from the OS poll returning 0; the value handed to poll(2) is never a "
     "negative number other than -1. (T6) the deadline field is written only at creation and on the success arm of start. "
     "(T7) MIN expansions are full operands. (T8) the exit pipe's write end is not closed on the child side of a fork-mode "
-    "start. Not decided: wall-clock accuracy, clock steps, which of two expired deadlines is reported.")
+    "start. Not decided: wall-clock accuracy, clock steps, which of two expired deadlines is reported. Also: every arithmetic result that can reach a variable compared for equality with a sentinel is evaluated and must exclude the sentinel's number (T1s); find_earliest_deadline is evaluated exactly on all pairs of source kinds against the oracle 'an expired source, else the least time left' (T3e); the clock id of now() is a real-time millisecond clock (T10).")
 ASSUMPTIONS = [
     "clang 14 parser/CFG and the fact extractor are correct", "libc models in sa/models.py; poll(2) treats a negative timeout as infinite",
     "callers pass timeouts from the documented domain: >= 0, REPROC_INFINITE, and REPROC_DEADLINE for reproc_wait only",
